@@ -26,12 +26,23 @@ nx = lambda a, b, l: l.startswith('exc:')
 
 def check(run):
     R = run
+    R.rule('C12.shared', 'objects created once per class / per function definition (class-level attributes, parameter '
+           'defaults) are only read (no frame/header cache or lock shared across instances by accident); a failed '
+           'sendall() is never re-issued', 3)
+    from .common import shared_state, no_send_retry
+    shared_state(R, 'C12.shared')
+    no_send_retry(R, 'C12.shared')
     R.rule('C12.tests', 'write(): the is_closed / is_closing tests are inside the critical section of sendall and guard '
                         'it on every path', 3)
     R.rule('C12.set', 'the store making is_closing true is in the same critical-section instance as the Close frame\'s '
                       'sendall', 1)
     R.rule('C12.guard', 'the not-closing decision is re-validated under the lock', 1)
     R.rule('C12.enter', 'every close() path that attempts the Close send enters the closing state; CLOSE has one producer', 4)
+    from . import C11
+    R.rule('C12.lock', 'the critical sections are real: one threading lock per session, created in __init__ for every kind '
+                       'of connection, used only through `with`', 2)
+    with R.as_rule('C12.lock'):
+        C11.single(R)
     tests(R)
     set_(R)
     C08.onlyclose(R, RID='C12.enter')
